@@ -149,6 +149,12 @@ def e2e_monitor(case, il, sl):
         return ("what reached the transport is not a clean prefix of the published messages (whole frames, per channel 0,1,2,... intact): %s" % wp, "c18-wire-garbled")
     if eintr:
         return None      # the transport failed on purpose: the connection may die; only the wire is judged
+    if any(x.startswith("close-during") for x in t[9:]):
+        # publishers still blocked at the close are released with its error; the wire (a clean
+        # prefix, checked above) and the result of the close are what is judged
+        if d.get("close") != "close ok":
+            return ("Connection::close was called with the backlog still buffered and the transport taking it in small pieces: %s" % d.get("close"), "c18-close-under-backlog")
+        return None
     kv = dict(x.split("=") for x in d["stall"].split()[1:])
     acc, acc_before, wr = int(kv["accepted"]), int(kv["accepted-500ms-earlier"]), int(kv["written-during-stall"])
     total = threads * nmsg
@@ -163,6 +169,9 @@ def e2e_monitor(case, il, sl):
         return ("after the transport drained the publishers did not all finish: %s" % dr, "c18-no-resume")
     if "late-channel" in d and not d["late-channel"].endswith("ok"):
         return ("a channel opened while throttled did not work: %s" % d["late-channel"], "c18-late-channel")
+    if "close" in d and d["close"] not in ("close ok",):
+        return ("Connection::close was called with the backlog still buffered and the transport taking it in small pieces: %s" % d["close"], "c18-close-under-backlog")
+
     if "idle-close-ok" in d and not d["idle-close-ok"].endswith(" t"):
         return ("the server closed an idle channel in the moment the stall ended: the client's CloseOk never reached the wire (%s)" % dr, "c18-appended-not-written")
     w = d.get("wire", "")
@@ -173,7 +182,10 @@ def e2e_monitor(case, il, sl):
 
 def gen_e2e(tier, seed):
     rng = Rng(seed + 1818)
-    extra = ["run 2 20000 0 2 150 1000 1200 f release=all srvclose=1", "run 4 262144 0 1 400 8192 1000 f release=all srvclose=1"]
+    extra = ["run 2 20000 0 2 150 1000 1200 f release=all srvclose=1", "run 4 262144 0 1 400 8192 1000 f release=all srvclose=1",
+             "run 2 20000 0 2 150 1000 1200 f consume=1",                    # publishing channels that also consume are throttled like any other
+             "run 16 16777216 0 1 30 3000 600 f close-during=1",              # Connection::close with the backlog still buffered, taken in small pieces
+             "run 4 65536 0 2 60 2000 700 f close-during=1"]
     cfgs = [(0, 1000, 0, 2, 60, 100, 1200, "f"), (1, 1000, 0, 2, 120, 300, 1200, "t"), (2, 20000, 10000, 3, 150, 1000, 1200, "t"), (16, 65536, 0, 4, 200, 800, 1500, "f")]
     if tier != "quick":
         for _ in range(12):
